@@ -56,7 +56,7 @@ Definition kid_put (k : node) (v : value) (na : entries) (sq : Z) : entries :=
 Definition text_state (a : list xattr) (text : str) : entries * Z :=
   match trim trim_all text with
   | [] => (init_na a, 0%Z)
-  | tt => (set (seqK o) (VInt 0) (set (textK o) (VStr tt) (init_na a)), 1%Z)
+  | c :: t => (set (seqK o) (VInt 0) (set (textK o) (VStr (c :: t)) (init_na a)), 1%Z)
   end.
 
 Definition finish (na : entries) : value := match na with [] => VStr [] | _ => VMap na end.
@@ -118,7 +118,7 @@ Lemma loop_char f skey na sq x ts :
   loop (S f) skey na sq (TChar x :: ts) TermEOF
   = match trim trim_all x with
     | [] => loop f skey na sq ts TermEOF
-    | tt => loop f skey (set (seqK o) (VInt sq) (set (textK o) (VStr tt) na)) (sq + 1)%Z ts TermEOF
+    | c :: t => loop f skey (set (seqK o) (VInt sq) (set (textK o) (VStr (c :: t)) na)) (sq + 1)%Z ts TermEOF
     end.
 Proof.
   intros H. destruct skey as [|c k]; [discriminate|].
@@ -216,12 +216,20 @@ Proof.
   - cbn [app trim]. change (trim trim_all []) with (@nil ascii).
     cbn [app] in Hf.
     apply (kids_loop kids IH fuel (xfull nm) _ _ nm rest Hn eq_refl Hks Hf).
-  - cbn [app length] in Hf. rewrite app_length in Hf. cbn [length] in Hf.
+  - cbn [app length] in Hf.
     destruct fuel as [|f]; [lia|].
     cbn [app]. rewrite (loop_char f (xfull nm) _ _ (c :: t) _ Hn).
     destruct (trim trim_all (c :: t)) eqn:Et.
     + apply (kids_loop kids IH f (xfull nm) _ _ nm rest Hn eq_refl Hks). lia.
     + apply (kids_loop kids IH f (xfull nm) _ _ nm rest Hn eq_refl Hks). lia.
+Qed.
+
+Lemma loop_top_start f nm a ts :
+  nonempty (xfull nm) = true ->
+  loop (S f) [] [] 0%Z (TStart nm a :: ts) TermEOF = loop f (xfull nm) (init_na a) 0%Z ts TermEOF.
+Proof.
+  intros Hn. cbn [sloop]. unfold snake. cbn [snakeCaseKeys handleXMPPStreamTag seq_o opts0 andb].
+  rewrite Hn. reflexivity.
 Qed.
 
 (* NewMapXmlSeq on the RawToken stream of a document whose root is an element *)
@@ -231,11 +239,10 @@ Theorem seq_decode_doc nm a text kids :
   = Ok (VMap [(xfull nm, node_val (NElem nm a text kids))]).
 Proof.
   intros Hne. unfold seq_decode, seq_decode_rest.
-  cbn [rawtoks_of length].
   assert (Hn : nonempty (xfull nm) = true).
   { cbn [names_ne] in Hne. apply andb_true_iff in Hne. apply Hne. }
-  cbn [sloop]. unfold snake. cbn [snakeCaseKeys handleXMPPStreamTag seq_o opts0 andb].
-  rewrite Hn.
+  cbn [rawtoks_of].
+  rewrite (loop_top_start _ nm a _ Hn).
   assert (H := elem_decodes_all (NElem nm a text kids)). cbn [elem_decodes] in H.
   change ((match text with [] => [] | _ :: _ => [TChar text] end) ++ flat_map rawtoks_of kids ++ [TEnd nm])
     with ((match text with [] => [] | _ :: _ => [TChar text] end) ++ flat_map rawtoks_of kids ++ TEnd nm :: []).
@@ -243,6 +250,6 @@ Proof.
   change ((match text with [] => [] | _ :: _ => [TChar text] end) ++ flat_map rawtoks_of kids)
     with (body_toks text kids).
   rewrite (H Hne); [reflexivity|].
-  rewrite app_length. cbn [length]. lia.
+  cbn [length]. rewrite app_length. cbn [length]. lia.
 Qed.
 End Dec.
